@@ -5,6 +5,7 @@ Works on the per-path traces of the abstract interpreter: the final value writte
 is a term over the counter's old value; it is decomposed into a signed sum ("linear form")."""
 from collections import defaultdict
 from .core import RuleResult, CheckFailure
+from .roles import CHAN_RECV
 from .roles import named
 from .kernel import norm
 from .roles import get_roles, HASHMAP_REMOVE, DASHMAP_REMOVE
@@ -633,8 +634,8 @@ def rule_flow_sync(ctx):
                     r.violate(inv, 'remove-op-not-queued', 'WriteOp::Remove', 'invalidate removes the entry from the map but does not queue WriteOp::Remove for it: '
                               'its weight, count and deque nodes are never given back', where=ctx.where(inv))
     # the Remove arm of the consumer passes the entry to the remove role
-    cons = [n for n in prog.bodies if n.startswith(SYNC_INNER) and 'crossbeam_channel::Receiver::try_recv' in R.ext_calls[n] and
-            any('WriteOp' in t.get('self_ty', {}).get('s', '') for _, t in prog.bodies[n].calls() if prog.call_targets(prog.bodies[n], t)[1] == 'crossbeam_channel::Receiver::try_recv')]
+    cons = [n for n in prog.bodies if n.startswith(SYNC_INNER) and bool(CHAN_RECV & set(R.ext_calls[n])) and
+            any('WriteOp' in t.get('self_ty', {}).get('s', '') for _, t in prog.bodies[n].calls() if prog.call_targets(prog.bodies[n], t)[1] in CHAN_RECV)]
     for cn in cons:
         callees = prog.callees(cn)
         ok = bool(callees & set(roles)) and nid in callees
